@@ -312,7 +312,14 @@ func (w *World) registerIntrinsics() {
 	})
 	w.reg(V+"Now", func(e *Exec, fn *ssa.Function, a []Value) Value { return e.now() })
 	w.reg(V+"ClockSpan", func(e *Exec, fn *ssa.Function, a []Value) Value {
+		// starts a new group of clock readings: every reading until the next
+		// ClockSpan call lies within d of the first reading of the group
+		// (negative d: no constraint).
 		e.clockSpan = e.durToInt(a[0].(*Term))
+		if e.clockSpan.Const && e.clockSpan.I.Sign() < 0 {
+			e.clockSpan = nil
+		}
+		e.clockFirst = nil
 		return nil
 	})
 	w.reg(V+"Time", func(e *Exec, fn *ssa.Function, a []Value) Value {
